@@ -20,17 +20,21 @@ func (k Keeper) Lock(ctx context.Context, reqs []*goattypes.LockRequest) error {
 
 	// aggregate
 	updates := make(map[common.Address]sdktypes.Coins)
+	// keep the order of first appearance: map iteration order would make the
+	// gas used by a failing batch differ between nodes
+	order := make([]common.Address, 0, len(reqs))
 	for _, req := range reqs {
 		if _, ok := updates[req.Validator]; !ok {
 			updates[req.Validator] = sdktypes.Coins{}
+			order = append(order, req.Validator)
 		}
 		coin := sdktypes.NewCoin(types.TokenDenom(req.Token), math.NewIntFromBigInt(req.Amount))
 		updates[req.Validator] = updates[req.Validator].Add(coin)
 	}
 
 	sdkctx := sdktypes.UnwrapSDKContext(ctx)
-	for validator, coins := range updates {
-		if err := k.lock(sdkctx, validator, coins); err != nil {
+	for _, validator := range order {
+		if err := k.lock(sdkctx, validator, updates[validator]); err != nil {
 			return err
 		}
 	}
